@@ -94,7 +94,8 @@ def tlc(module, cfg=None, workers=None, timeout=900, coverage=False, simulate=No
     workers = workers or min(16, os.cpu_count() or 4)
     wname = workname or f"tlc-{cfg}-{os.getpid()}"
     meta = workdir(wname)
-    cmd = ["java", "-XX:+UseParallelGC", "-Xss256m", f"-Xmx{heap}", "-cp", TLA_CP, "tlc2.TLC",
+    # (TLC leaves an empty tlc-<n> directory in java.io.tmpdir per run: keep them inside the run's own scratch directory)
+    cmd = ["java", "-XX:+UseParallelGC", "-Xss256m", f"-Xmx{heap}", f"-Djava.io.tmpdir={meta}", "-cp", TLA_CP, "tlc2.TLC",
            "-workers", str(workers), "-metadir", meta, "-noGenerateSpecTE",
            "-config", f"{cfg}.cfg"]
     if coverage:
